@@ -169,6 +169,7 @@ type Enc struct {
 	opaqueReads bool // relational mode: byte readers in contracts are uninterpreted
 	noObl      int
 	autoDepth  int // nesting of automatically inlined contract-less helpers
+	siteCovered map[string]int // hooked call sites: number of reachability covers emitted
 	nextHookFrom *frame    // set just before runBody of an automatically inlined helper
 	nextHookPos  token.Pos
 	loopDry    int
